@@ -189,8 +189,7 @@ let s_deser_cell = function Ok (c, _) -> "ok:" ^ s_cell c | Err e -> "err:" ^ de
 
 let class_tag = function
   | KA_vector_null_element -> "vector-null-element"
-  | KB_vector_trailing_empty -> "vector-trailing-empty-element"
-  | KC_empty_tuple -> "empty-tuple"
+  | KB_empty_tuple -> "empty-tuple"
 
 let strip_ok s = if String.length s >= 3 && String.sub s 0 3 = "ok:" then Some (String.sub s 3 (String.length s - 3)) else None
 
@@ -277,8 +276,6 @@ let verdict case impl =
     else if prop_ok then "ok"
     else if kind = "V" && cells_hole cells then
       "viol class=vector-null-element decodes to " ^ ideser ^ " instead of " ^ want
-    else if kind = "V" && cells_trailing_empty e cells then
-      "viol class=vector-trailing-empty-element decodes to " ^ ideser ^ " instead of " ^ want
     else "viol decodes to " ^ ideser ^ " instead of " ^ want
   | ["D"; ts; hx], [ideser] ->
     let t = type_of_string ts in
